@@ -144,13 +144,13 @@ PROGRAMS = [
     # ---- try, assert
     ("try-no-throw", "", 'let v = try { println("in") 1 } catch (e) { 2 }\nv'),
     ("assert-true", "", "assert(True)\nassert(1 + 1 == 2)\nassert(1 < 2)\n1"),
-    ("assert-in-fun", DEFS, 'fun checked(n: Int): Int { assert(n > 0) n }\nchecked(3)'),
+    ("assert-in-fun", DEFS + "fun checked(n: Int): Int { assert(n > 0) n }\n", "checked(3)"),
     # ---- programs ending in a runtime error
     ("err-throw", "", 'println("before")\nthrow("boom")\nprintln("after")'),
     ("err-type-binop", "", 'print("a")\n1 + "x"'),
     ("err-unbound", "", 'print("a")\nnosuch + 1'),
     ("err-in-call", DEFS, 'print("a")\ninc("s")'),
-    ("err-in-nested-fun", DEFS, 'fun bad(n) { print("in") throw("deep") }\nfun outer(n) { bad(n) + 1 }\nouter(1)'),
+    ("err-in-nested-fun", DEFS + 'fun bad(n) { print("in") throw("deep") }\nfun outer(n) { bad(n) + 1 }\n', "outer(1)"),
     ("err-assert", "", 'print("a")\nassert(1 == 2)'),
     ("err-assert-plain", "", 'print("a")\nassert(False)'),
     ("err-return-type", DEFS, 'print("a")\nwrong_ret(1)'),
